@@ -78,6 +78,32 @@ K_INT_INDEX = re.compile(rb'(?<![\w.$\])])(?:\(\s*)+' + _INT + rb'(?:\s*\))+\s*\
 K_REGEX_DASH = re.compile(rb'\[[^\]\n]*\\[^\]\n]\\-')
 # K18: a bare yield in a template substitution loses its parentheses; the minifier's own parser rejects the result on the second pass
 K_TPL_YIELD = re.compile(rb'\$\{\s*\(*\s*yield\s*\)*\s*\}')
+# K19: regexp with the v flag: inside a character class the backslash of ( ) [ ] { } / - | is required (ClassSetSyntaxCharacter) but removed
+K_REGEX_V_CLASS = re.compile(rb'/[^/\n]*\[[^\n]*\\[^\n]*/[dgimsuy]*v')
+# K20: css url('data:...') in single quotes: DataURI re-encodes the payload and leaves a decoded ' literal: url('data:text/x,it's')
+_SQ_DATA = re.compile(rb"url\(\s*'data:([^',]*),([^']*)'", re.I)
+
+
+def sq_data_uri_with_quote(b):
+    for m in _SQ_DATA.finditer(b):
+        head, payload = m.group(1), m.group(2)
+        if b'%27' in payload:
+            return True
+        if head.lower().endswith(b';base64'):
+            try:
+                if b"'" in base64.b64decode(payload + b'=' * (-len(payload) % 4)):
+                    return True
+            except Exception:
+                pass
+    return False
+
+
+# K21: @import url(a\ ) with an escape right before the closing parenthesis is rewritten to the string "a\" whose quote is escaped
+K_IMPORT_URL_ESC = re.compile(rb'@import\s+url\(\s*[^)"\'\s][^)"\']*\\\s?\)', re.I)
+# K22: a block that contains only a bang comment loses its braces: if(a){//!k\n} -> if(a)//!k  ;  if(a){/*!k*/}else{b()} -> if(a)/*!k*/else b()
+K_BANG_ONLY_BLOCK = re.compile(rb'\{\s*(?://!|/\*!)')
+# K24: two adjacent CDATA sections are rewritten to text and joined: a]] + >b -> a]]>b (not allowed in character data)
+K_CDATA_ADJ = re.compile(rb'\]\]><!\[CDATA\[')
 # K10: a processing instruction whose content contains ">" before its "?>" is cut at that ">" by the XML/SVG minifiers
 K_PI_GT = re.compile(rb'<\?(?:(?!\?>)[^>])*(?<!\?)>', re.S)
 
@@ -158,6 +184,16 @@ def excluded(lang, opts, b):
         tags.append('K17')
     if lang in ('js', 'html') and K_TPL_YIELD.search(b):
         tags.append('K18')
+    if lang in ('js', 'html') and K_REGEX_V_CLASS.search(b):
+        tags.append('K19')
+    if lang in ('css', 'html', 'svg') and sq_data_uri_with_quote(b):
+        tags.append('K20')
+    if lang in ('css', 'html', 'svg') and K_IMPORT_URL_ESC.search(b):
+        tags.append('K21')
+    if lang in ('js', 'html') and K_BANG_ONLY_BLOCK.search(b):
+        tags.append('K22')
+    if lang in ('xml', 'svg') and K_CDATA_ADJ.search(b):
+        tags.append('K24')
     if lang == 'html' and K_SCRIPT_TYPE_CASE.search(b):
         tags.append('K11')
     if lang in ('js', 'html') and ('names' in opts or 'keep' in opts) and same_name_var_and_let(b):
@@ -423,6 +459,23 @@ def rewrite_programs(rnd, quick):
     return out
 
 
+def regex_programs(quick):
+    """states of spec/JsRegex.tla rendered: an escaped punctuator outside / inside / at the edges of a character class x flags"""
+    sub = {'DQ': '"', 'BS': '\\'}
+    out = []
+    for pc in sorted(tla_string_set('JsRegex', 'Puncts')):
+        c = sub.get(pc, pc)
+        for pos in sorted(tla_string_set('JsRegex', 'Positions')):
+            body = {'out': 'a\\%sb', 'in': '[a\\%sb]', 'first': '[\\%sa]', 'last': '[a\\%s]', 'only': '[\\%s]', 'pair': '\\%s\\%s',
+                    'range': '[\\%s-z]'}[pos]
+            body = body.replace('%s', c)
+            for fl in sorted(tla_string_set('JsRegex', 'Flags')):
+                if quick and fl not in ('', 'u', 'v', 'gu'):
+                    continue
+                out.append(('x=/%s/%s;' % (body, fl)).encode() if True else None)
+    return out
+
+
 def css_string_documents():
     """states of spec/CssStrCtx.tla rendered: list of (lang, inline, bytes, origin)"""
     docs = []
@@ -600,7 +653,7 @@ def tlc_jobs(ctx):
     """design-level model checking (run in threads next to the driver)"""
     q = ctx.quick()
     jobs = [('Closure', 'Closure_mc.cfg' if q else 'Closure_mc4.cfg', None),
-            ('JsRewrite', 'JsRewrite.cfg', None), ('CssStrCtx', 'CssStrCtx.cfg', None),
+            ('JsRewrite', 'JsRewrite.cfg', None), ('CssStrCtx', 'CssStrCtx.cfg', None), ('JsRegex', 'JsRegex.cfg', None),
             ('JsPrintCtx', 'JsPrintCtx_1.cfg', 'printctx')] + ([] if q else [('JsPrintCtx', 'JsPrintCtx_2.cfg', None)]) + [
             ('JsLexAdj', 'JsLexAdj_full3.cfg' if q else 'JsLexAdj_full4.cfg', 'adj-full'),
             ('JsLexAdj', 'JsLexAdj_core4.cfg' if q else 'JsLexAdj_core6.cfg', 'adj-core')]
@@ -768,6 +821,13 @@ def run(ctx):
                   origin='rw:%s|%s|%s|%d' % (rw, x, y, par)) is not None:
             nrw += 1
     ctx.coverage['rewrite_programs'] = nrw
+    nre = 0
+    for prog in (regex_programs(quick) if not only_pinned else []):
+        if cs.add('js', 'default', data=prog, origin='regex:' + prog.decode('latin1')) is not None:
+            nre += 1
+        if not quick or rnd.random() < 0.2:
+            cs.add('html', 'default', data=b'<script>' + prog + b'</script>', origin='regex-host')
+    ctx.coverage['regex_programs'] = nre
     ncss = 0
     for lang, inline, doc, origin in (css_string_documents() if not only_pinned else []):
         for o in (OPTSETS[lang] if not quick else ['default'] + ([rnd.choice(OPTSETS[lang][1:])] if rnd.random() < 0.3 else [])):
